@@ -17,7 +17,7 @@ BUDGET = {"quick": 50, "thorough": 600}
 QUICK_CASES = 1000  # generator items in the quick tier (fixed amount of work; BUDGET is then only a safety cap)
 FLOOR = {"quick": 20000, "thorough": 20000}  # conclusive cases below which a run is inconclusive (the thorough tier is time-budgeted: same floor)
 TIMEOUT = 120
-REQUIRED_OBS = ["frame_lists", "fragmentations", "exhaustive_fragmentations", "sessions", "requests_sent", "replies_verified", "iopub_brackets_verified", "results_checked", "errors_checked", "stdout_checked", "corrupted_requests", "corruptions_rejected", "second_subscriber_sessions"]
+REQUIRED_OBS = ["frame_lists", "fragmentations", "exhaustive_fragmentations", "sessions", "requests_sent", "replies_verified", "iopub_brackets_verified", "results_checked", "errors_checked", "stdout_checked", "corrupted_requests", "corruptions_rejected", "second_subscriber_sessions", "two_front_end_sessions", "slow_subscriber_sessions"]
 RULE = (
     "(A) ZmqSocket over in-memory streams: lists of 1-8 byte frames with lengths in {0, 1, 254, 255, 256, 257, 65535, 65536} and random, "
     "random contents, optionally with command frames in between, written by send / send_multipart and re-read by recv / recv_multipart "
@@ -62,6 +62,7 @@ class Writer:
         self.buf = bytearray()
         self.closed = False
         self.gone = False
+        self.slow = 0
 
     def write(self, data):
         if not self.gone:
@@ -71,6 +72,9 @@ class Writer:
         # like asyncio's StreamWriter once the peer is gone
         if self.gone or self.closed:
             raise ConnectionResetError("Connection lost")
+        # a subscriber that applies back-pressure: drain() really suspends (existing suspension point)
+        for _ in range(self.slow):
+            await asyncio.sleep(0)
         return None
 
     def close(self):
@@ -370,6 +374,9 @@ def run_proto(case):
         logging.getLogger(f"custom_components.pyscript.{ctx_name}").setLevel(logging.DEBUG)
         cl = Client(KEY)
         await cl.connect("iopub", cbs["iopub"])
+        if rng.random() < 0.5:
+            cl.chan["iopub"]["writer"].slow = rng.choice([1, 2, 3])
+            obs["slow_subscriber_sessions"] += 1
         await cl.connect("shell", cbs["shell"])
         await cl.connect("heartbeat", cbs["heartbeat"])
         await w.settle()
@@ -481,6 +488,32 @@ def run_proto(case):
                 viol.append({"mech": "unauthenticated_request_answered", "msg": f"corruption {kind}: {len(after) - shell_before} message(s) written to the shell stream afterwards: {[m.get('header', {}) and m['header'].get('msg_type') for m in after[shell_before:]]}"})
             else:
                 obs["corruptions_rejected"] += 1
+        # ---- a second front end on its own shell connection: its request is served while a cell of the first one is suspended
+        if not corrupt and rng.random() < 0.4:
+            cl3 = Client(KEY)
+            await cl3.connect("shell", cbs["shell"])
+            await w.settle()
+            hA, pA = cl.build("execute_request", {"code": "task.sleep(1)\n'slowA'", "silent": False, "store_history": False}, [b"A"])
+            sent.append({"hdr": hA, "ids": [b"A"], "type": "execute_request", "code": "task.sleep(1)\n'slowA'", "exp": "'slowA'", "count": exec_count, "store": False})
+            await cl.send("shell", pA, rng)
+            obs["requests_sent"] += 1
+            await w.settle()
+            hB, pB = cl3.build("execute_request", {"code": "'fastB'", "silent": False, "store_history": False}, [b"B"])
+            await cl3.send("shell", pB, rng)
+            obs["requests_sent"] += 1
+            await w.settle()
+            await w.advance(1.6)
+            await w.settle()
+            obs["two_front_end_sessions"] += 1
+            rb = [m for m in cl3.received("shell") if "malformed" not in m]
+            okb = len(rb) == 1 and rb[0]["sig_ok"] and rb[0]["parent"] == hB and rb[0]["ids"] == [b"B"] and rb[0]["header"].get("msg_type") == "execute_reply" and rb[0]["content"].get("status") == "ok"
+            if not okb:
+                viol.append({"mech": "reply_wrong_parent" if rb and rb[0].get("parent") != hB else "reply_missing", "msg": f"second front end: its request got {[(m.get('header') or {}).get('msg_type') for m in rb]} with parents {[((m.get('parent') or {}).get('msg_id')) for m in rb]} (own id {hB['msg_id']}, the other front end's {hA['msg_id']})"})
+            io_b = [m for m in cl.received("iopub") if (m.get("parent") or {}).get("msg_id") == hB["msg_id"]]
+            res_b = [m for m in io_b if m["header"].get("msg_type") == "execute_result"]
+            st_b = [m["content"].get("execution_state") for m in io_b if m["header"].get("msg_type") == "status"]
+            if not viol and (len(res_b) != 1 or res_b[0]["content"]["data"].get("text/plain") != "'fastB'" or st_b != ["busy", "idle"]):
+                viol.append({"mech": "iopub_bracket_broken", "msg": f"second front end: iopub messages for its request: results {[x['content'].get('data') for x in res_b]} states {st_b}"})
         # ---- verify replies
         shell = cl.received("shell")[:shell_before] if corrupt else cl.received("shell")
         iopub = cl.received("iopub")
